@@ -7,6 +7,10 @@ package main
 import (
 	"fmt"
 	"strings"
+
+	"git.defalsify.org/vise.git/cache"
+	"git.defalsify.org/vise.git/engine"
+	"git.defalsify.org/vise.git/state"
 )
 
 type nodeB struct {
@@ -223,8 +227,8 @@ func genApp(c *Ctx, ec *eCase) {
 		ec.exts = append([]extRule{{sym: "bb", callIdx: r.Intn(4), content: multi[r.Intn(len(multi))]}}, ec.exts...)
 	}
 	ec.exts = append(ec.exts, extRule{sym: "bb", callIdx: -1, content: multi[r.Intn(len(multi))]})
-	ccFail := r.Intn(3) == 0
-	ec.exts = append(ec.exts, extRule{sym: "cc", callIdx: -1, content: []string{"ok", "toolongvalue!", ""}[r.Intn(3)], fail: ccFail, status: r.Intn(3)})
+	ccFail := r.Intn(4) == 0
+	ec.exts = append(ec.exts, extRule{sym: "cc", callIdx: -1, content: []string{"ok", "ok!", "", "ok", "toolongvalue!"}[r.Intn(5)], fail: ccFail, status: r.Intn(3)})
 	var set, reset []uint32
 	for i := 0; i < r.Intn(4); i++ {
 		f := uint32(r.Intn(8 + userFlags))
@@ -239,22 +243,90 @@ func genApp(c *Ctx, ec *eCase) {
 	}
 	ec.exts = append(ec.exts, extRule{sym: "dd", callIdx: -1, content: "D", set: set, reset: reset})
 	ec.exts = append(ec.exts, extRule{sym: "ll", callIdx: -1, content: []string{"nor", "no", "zzzz", "", "fra"}[r.Intn(5)], set: []uint32{7}})
-	// ---- inputs
-	junk := [][]byte{[]byte(""), []byte("x"), []byte("!bad"), []byte("1\n2"), []byte("+1"), []byte(" 1"), []byte("99"), []byte{0xff, 0x31},
-		[]byte(strings.Repeat("7", 300)), []byte(strings.Repeat("a", 255)), []byte(strings.Repeat("a", 256)), []byte("0"), []byte("*"), []byte("_"), []byte("<")}
-	n := 2 + r.Intn(14)
-	if r.Intn(10) == 0 {
-		n = 20 + r.Intn(25)
+	_ = allSels
+}
+
+var junkInputs = [][]byte{[]byte(""), []byte("x"), []byte("!bad"), []byte("1\n2"), []byte("+1"), []byte(" 1"), []byte("99"), {0xff, 0x31},
+	[]byte(strings.Repeat("7", 300)), []byte(strings.Repeat("a", 255)), []byte(strings.Repeat("a", 256)), []byte("0"), []byte("*"), []byte("_"), []byte("<"),
+	[]byte("11"), []byte("22"), []byte("5")}
+
+// pendingSelectors lists the selectors of all INCMP instructions in pending bytecode.
+func pendingSelectors(code []byte) []string {
+	var r []string
+	b := code
+	for len(b) >= 2 {
+		s, rest, err, p := decodeStep(b)
+		if err != nil || p != nil {
+			break
+		}
+		if strings.HasPrefix(s, "INCMP:") {
+			f := strings.Split(s, ":")
+			sel := string(unhx(f[2]))
+			if sel != "*" {
+				r = append(r, sel)
+			}
+		}
+		b = rest
 	}
-	ec.inputs = [][]byte{[]byte("")}
+	return r
+}
+
+// adaptiveInputs builds the input history by stepping the real engine: at each step it mostly picks a
+// selector the pending bytecode accepts, sometimes junk, a refused input or an unknown selector.
+// After the session ends it adds a few more requests (meaningful in persisted mode).
+func adaptiveInputs(c *Ctx, ec *eCase) {
+	r := c.Rng
+	n := 3 + r.Intn(14)
+	if r.Intn(10) == 0 {
+		n = 20 + r.Intn(30)
+	}
+	ncalls := 0
+	rs := &recRes{c: ec, ncalls: &ncalls}
+	st := state.NewState(uint32(ec.flags))
+	ca := cache.NewCache()
+	if ec.cache > 0 {
+		ca = ca.WithCacheSize(uint32(ec.cache))
+	}
+	en := engine.NewEngine(ec.config(), rs).WithState(st).WithMemory(ca)
+	if f := rs.firstFunc(); f != nil {
+		en = en.WithFirst(f)
+	}
+	ec.inputs = nil
+	tail := -1
 	for i := 0; i < n; i++ {
+		var in []byte
+		sels := pendingSelectors(st.Code)
 		switch {
-		case r.Intn(5) == 0:
-			ec.inputs = append(ec.inputs, junk[r.Intn(len(junk))])
-		case r.Intn(4) == 0:
-			ec.inputs = append(ec.inputs, []byte([]string{"0", "11", "22", "5"}[r.Intn(4)]))
+		case i == 0:
+			in = []byte("")
+			if r.Intn(10) == 0 {
+				in = junkInputs[r.Intn(len(junkInputs))]
+			}
+		case tail >= 0 || len(sels) == 0 || r.Intn(6) == 0:
+			in = junkInputs[r.Intn(len(junkInputs))]
 		default:
-			ec.inputs = append(ec.inputs, []byte(allSels[r.Intn(len(allSels))]))
+			in = []byte(sels[r.Intn(len(sels))])
+		}
+		ec.inputs = append(ec.inputs, in)
+		if tail >= 0 {
+			tail--
+			if tail < 0 {
+				break
+			}
+			continue
+		}
+		rec := reqRec{}
+		oneRequest(en, in, &rec)
+		if rec.x == "panic" || rec.f == "panic" {
+			break
+		}
+		if (rec.x == "ok" && !rec.cont) || (rec.x == "err" && !refusedInput(in)) {
+			// the session ended (or broke): a short tail of further requests
+			tail = r.Intn(4)
+			if tail == 0 {
+				break
+			}
+			tail--
 		}
 	}
 }
@@ -267,7 +339,7 @@ func genEngineCases(c *Ctx) []string {
 	for i := 0; i < n; i++ {
 		ec := &eCase{mode: "long", root: "root"}
 		genApp(c, ec)
-		ec.out = []int{0, 0, 160, 60, 40, 25, 12}[c.Rng.Intn(7)]
+		ec.out = []int{0, 0, 0, 160, 160, 90, 60, 40, 25, 12}[c.Rng.Intn(10)]
 		ec.cache = []int{0, 0, 0, 100, 30}[c.Rng.Intn(5)]
 		if c.Rng.Intn(8) == 0 {
 			ec.lang = []string{"nor", "eng", "xx"}[c.Rng.Intn(3)]
@@ -311,6 +383,7 @@ func genEngineCases(c *Ctx) []string {
 				ec.nolabel["back"] = true
 			}
 		}
+		adaptiveInputs(c, ec)
 		// the same history in both modes
 		ec.mode = "long"
 		ls = append(ls, ec.String())
